@@ -121,7 +121,8 @@ pub fn gen_cfg(r: &mut Rng, h: u64, seed: u64, force: Option<(bool, u32)>) -> Cf
         vamms.push(VammInit {
             q: qu * d,
             b: bu * d,
-            period: *r.pick(&[3600u64, 86400]),
+            // mostly one hour / one day; also periods that do not divide a day (5 h, 7 h, 50 min)
+            period: *r.pick(&[3600u64, 86400, 3600, 86400, 18000, 25200, 3000]),
             toll,
             spread,
             fluct,
@@ -183,6 +184,18 @@ pub fn gen_cfg(r: &mut Rng, h: u64, seed: u64, force: Option<(bool, u32)>) -> Cf
         }
     }
     let oracle0 = vamms[0].q * d / vamms[0].b;
+    // ratios that are not round numbers: one raw unit above the menu value in a third of the deployments (decided from
+    // (seed, h) without consuming PRNG draws).  Halving, splitting and rounding of such a ratio leaves remainders that the
+    // round menu values never produce.
+    let jit = |k: u64| -> u128 { ((seed.wrapping_mul(0x2545_F491).wrapping_add(h.wrapping_mul(0x9E37)).wrapping_add(k.wrapping_mul(0x85EB)) >> 4) % 3 == 0) as u128 };
+    let odd = |x: u128, k: u64| -> u128 { if x != 0 && x < d { x + jit(k) } else { x } };
+    for (i, v) in vamms.iter_mut().enumerate() {
+        v.toll = odd(v.toll, 10 + i as u64);
+        v.spread = odd(v.spread, 20 + i as u64);
+        v.fluct = odd(v.fluct, 30 + i as u64);
+    }
+    let lf_odd = odd(bp(lf_bp), 1);
+    let plr_odd = odd(bp(plr_bp), 2);
     Cfg {
         h,
         seed,
@@ -192,8 +205,8 @@ pub fn gen_cfg(r: &mut Rng, h: u64, seed: u64, force: Option<(bool, u32)>) -> Cf
         real_feed,
         imr: bp(imr_bp),
         mmr: bp(mmr_bp),
-        lf: bp(lf_bp),
-        plr: bp(plr_bp),
+        lf: lf_odd,
+        plr: plr_odd,
         vamms,
         funds,
         ifbal,
